@@ -116,6 +116,8 @@ pub struct Net {
     sender_count: Vec<usize>,
     phase_count: std::collections::HashMap<(usize, usize, String), usize>,
     pub max_outstanding: usize,
+    /// largest number of messages ever waiting on one directed link (sent, not yet received by the peer's engine)
+    pub max_occ: usize,
     pub crash_request: Option<usize>,
     pub bytes_recv: Vec<usize>,
     seq: usize,
@@ -139,6 +141,7 @@ impl Net {
             sender_count: vec![0; n],
             phase_count: Default::default(),
             max_outstanding: 0,
+            max_occ: 0,
             crash_request: None,
             bytes_recv: vec![0; n],
             seq: 0,
@@ -283,6 +286,7 @@ impl Net {
                                 }
                                 some = crate::adv::some_positions(&self.ops[id].phase, &sent);
                                 self.queues[party][peer].push_back(sent);
+                                self.max_occ = self.max_occ.max(self.queues[party][peer].len());
                                 res = Ok(());
                             }
                             SendAction::Crash => {
